@@ -12,6 +12,7 @@ CONSTANTS
  AllowWith = TRUE
  AllowVars = FALSE
  MaxUses = 2
+ OldWith = TRUE
  RestoreOwn = FALSE
 INVARIANTS WithCross
 CHECK_DEADLOCK FALSE
